@@ -81,6 +81,11 @@ MoveKidF(m, j1, k, j2) ==
   IN  [m EXCEPT !.rels[j1].kids = SelectSeq(@, LAMBDA x : x # n),
                 !.rels[j2].kids = Append(@, n),
                 !.feats[FeatIdx(m, n)].par = m.rels[j2].owner]
+\* old.relations.remove(rel); rel.parent = new; new.add_relation(rel)   (a relation moves, with its children, under another owner)
+ReOwnF(m, j, o) ==
+  LET r == [m.rels[j] EXCEPT !.owner = o, !.pp = o]
+  IN  [m EXCEPT !.rels  = Append(SubSeq(@, 1, j - 1) \o SubSeq(@, j + 1, Len(@)), r),
+                !.feats = [i \in DOMAIN @ |-> IF @[i].name \in SetOf(m.rels[j].kids) THEN [@[i] EXCEPT !.par = o] ELSE @[i]]]
 \* model.import_model(sub_root, parent, ctcs): the constraints not yet in the model are appended, in order
 \* (the library compares constraints by the text of their trees)
 RECURSIVE ImportCtcs(_, _)
@@ -93,6 +98,10 @@ ImportF(m, new) == [m EXCEPT !.ctcs = ImportCtcs(@, new)]
 ToggleAbstractF(m, f) == [m EXCEPT !.feats[FeatIdx(m, f)].abs = ~@]
 \* attribute.set_default_value(v)
 SetAttrValF(m, f, k, v) == [m EXCEPT !.feats[FeatIdx(m, f)].attrs[k].val = v]
+\* attribute.set_name(n)
+SetAttrNameF(m, f, k, n) == [m EXCEPT !.feats[FeatIdx(m, f)].attrs[k].name = n]
+\* feature.set_attributes([all but the k-th])
+RemoveAttrF(m, f, k) == [m EXCEPT !.feats[FeatIdx(m, f)].attrs = SubSeq(@, 1, k - 1) \o SubSeq(@, k + 1, Len(@))]
 \* model.ctcs.pop(i)
 RemoveCtcF(m, i) == [m EXCEPT !.ctcs = SubSeq(@, 1, i - 1) \o SubSeq(@, i + 1, Len(@))]
 \* ctc.ast.root.data = op
